@@ -357,7 +357,7 @@ def check_gen_obligations(pid, gd, imports, obligations, timeout=300):
         return list(ex.map(one, obligations))
 
 
-def gen_and_eval_sharded(pid, gocmd, header, footer, goargs=None, timeout=1500, env=None, workers=16, sub=""):
+def gen_and_eval_sharded(pid, gocmd, header, footer, goargs=None, timeout=1500, env=None, workers=16, sub="", pre_args=None):
     """Like gen_and_eval, but the harness writes defs_*.v shards into a directory; each shard is wrapped with
     header/footer and evaluated by its own coqc, in parallel. Returns ([(shard_name, defs_text, coqc_stdout)], harness_result)."""
     from concurrent.futures import ThreadPoolExecutor
@@ -367,7 +367,7 @@ def gen_and_eval_sharded(pid, gocmd, header, footer, goargs=None, timeout=1500, 
     os.makedirs(wd)
     e = dict(GOENV)
     e.update(env or {})
-    rc, so, se, dt = run([binp, wd] + (goargs or []), cwd=wd, env=e, timeout=timeout)
+    rc, so, se, dt = run([binp] + (pre_args or []) + [wd] + (goargs or []), cwd=wd, env=e, timeout=timeout)
     if rc != 0:
         return None, (rc, so, se)
     shards = sorted(f for f in os.listdir(wd) if f.startswith("defs_") and f.endswith(".v"))
